@@ -440,6 +440,11 @@ def chain_engines():
         A('ty', 'y', 'analysis', inputs=[('tz', 'z', 's', None)])]
     out['regress-leaf'] = [A('ta', 'a'),
                            A('tr', 'r', 'regress', inputs=[('ta', 'a', None, None)])]
+    # an input shared by an analyzer and a regression (the trees are built
+    # analysis, regression, task: the second reader meets an existing node)
+    out['shared-input'] = [A('ta', 'a'), A('tc', 'c'),
+                           A('tz', 'z', 'analysis', inputs=[('ta', 'a', 's', 'x')]),
+                           A('tr', 'r', 'regress', inputs=[('ta', 'a', 's', 'x'), ('tc', 'c', 's', 'x')])]
     # names that are prefixes of one another, in one package
     out['chain3-prefix'] = [A('ta', 'a'), A('ta', 'ab', inputs=[('ta', 'a', None, None)]),
                             A('ta', 'abc', inputs=[('ta', 'ab', 's', 'x')])]
